@@ -50,13 +50,23 @@ func NewReadOnlyTransferer(
 	return &ReadOnlyTransferer{stats, cads, tags, sched}
 }
 
+// schedulerError maps a scheduler download error onto the transferer's errors:
+// a torrent unknown to the tracker / origin is a blob which does not exist, so
+// that the registry answers 404 instead of 500.
+func schedulerError(err error) error {
+	if err == scheduler.ErrTorrentNotFound {
+		return ErrBlobNotFound
+	}
+	return fmt.Errorf("scheduler: %s", err)
+}
+
 // Stat returns blob info from local cache, and triggers download if the blob is
 // not available locally.
 func (t *ReadOnlyTransferer) Stat(namespace string, d core.Digest) (*core.BlobInfo, error) {
 	fi, err := t.cads.Cache().GetFileStat(d.Hex())
 	if os.IsNotExist(err) || t.cads.InDownloadError(err) {
 		if err := t.sched.Download(namespace, d); err != nil {
-			return nil, fmt.Errorf("scheduler: %s", err)
+			return nil, schedulerError(err)
 		}
 		fi, err = t.cads.Cache().GetFileStat(d.Hex())
 		if err != nil {
@@ -73,7 +83,7 @@ func (t *ReadOnlyTransferer) Download(namespace string, d core.Digest) (store.Fi
 	f, err := t.cads.Cache().GetFileReader(d.Hex())
 	if os.IsNotExist(err) || t.cads.InDownloadError(err) {
 		if err := t.sched.Download(namespace, d); err != nil {
-			return nil, fmt.Errorf("scheduler: %s", err)
+			return nil, schedulerError(err)
 		}
 		f, err = t.cads.Cache().GetFileReader(d.Hex())
 		if err != nil {
